@@ -4,7 +4,7 @@ import math
 from vmon import attach, gen, refmetrics, refmodel, vutil
 
 NAN = float("nan")
-PROB = set(["marginal", "invreliability", "spreadskill", "murphy", "economicvalue", "bsdecomp", "igncontrib"])
+PROB = set(["qq-q", "marginal", "invreliability", "spreadskill", "murphy", "economicvalue", "bsdecomp", "igncontrib"])
 FIXED_F = {"meteo": 1, "against": 2, "impact": 2, "rank": 2}
 
 
@@ -706,6 +706,47 @@ def d_qq_x(ctx, rng, ds, paths, kind):
     c.done(ctx, "qq-x", argv, kind, F, distinct)
 
 
+def d_qq_q(ctx, rng, ds, paths, kind):
+    """qq with -q: one dashed curve per (input, quantile) = sorted (per-slice aggregated) quantile forecasts against the
+    sorted observations, over the cases where obs, fcst and every requested quantile are present"""
+    c = _c16()
+    qs = sorted(rng.sample(ds["inputs"][0]["quantiles"], rng.choice([1, 2, 3])))
+    axis = rng.choice(["no", "leadtime", "time", "location"])
+    agg = rng.choice([None, None, "median", "max"]) if axis != "no" else None
+    argv = ["-m", "qq", "-q", ",".join(gen.fnum(q) for q in qs)] + (["-x", axis] if axis != "no" else []) + (["-agg", agg] if agg else [])
+    fig, case = c.run(ctx, paths, argv, ds)
+    if fig is None:
+        return
+    F = len(ds["inputs"])
+    fields = [("obs",), ("fcst",)] + [("q", q) for q in qs]
+    distinct = 0
+    for k in range(F):
+        name = ds["inputs"][k]["name"]
+        sl = refmodel.slices(ds, k, fields, axis)
+        if axis == "no":
+            cols = [[cs_[j] for lab, cs in sl for cs_ in cs] for j in range(len(fields))]
+        else:
+            cols = [[refmetrics.aggregate(agg or "mean", [cs_[j] for cs_ in cs]) if cs else NAN for lab, cs in sl] for j in range(len(fields))]
+        ld = fig.lines(0, name + " (deterministic)")
+        if len(ld) != 1:
+            ctx.violation("qq|series-missing", "no line labelled %r" % (name + " (deterministic)"), case)
+            continue
+        gx, gy = fig.xy(ld[0])
+        c.compare_series(ctx, "qq", "x sorted obs (-q given, -x %s) input %d" % (axis, k), gx, _nansorted(cols[0]), case)
+        c.compare_series(ctx, "qq", "y sorted fcst (-q given, -x %s) input %d" % (axis, k), gy, _nansorted(cols[1]), case)
+        for j, q in enumerate(qs):
+            label = "%s (%g%%)" % (name, q * 100)
+            lq = fig.lines(0, label)
+            if len(lq) != 1:
+                ctx.violation("qq|series-missing", "no quantile curve labelled %r" % label, case)
+                continue
+            qx, qy = fig.xy(lq[0])
+            c.compare_series(ctx, "qq", "quantile curve %g%% of input %d (-x %s): sorted quantile forecasts" % (q * 100, k, axis),
+                             qy, _nansorted(cols[2 + j]), case)
+            distinct = max(distinct, len(set(y for y in qy if y == y)))
+    c.done(ctx, "qq-q", argv, kind, F, distinct)
+
+
 def d_scatter_x(ctx, rng, ds, paths, kind):
     c = _c16()
     axis = rng.choice(["leadtime", "time", "location"])
@@ -799,4 +840,4 @@ def d_performance_x(ctx, rng, ds, paths, kind):
     c.done(ctx, "performance-x", argv, kind, F, distinct)
 
 
-DIAGRAMS.update({"qq-x": d_qq_x, "scatter-x": d_scatter_x, "taylor-x": d_taylor_x, "performance-x": d_performance_x})
+DIAGRAMS.update({"qq-q": d_qq_q, "qq-x": d_qq_x, "scatter-x": d_scatter_x, "taylor-x": d_taylor_x, "performance-x": d_performance_x})
